@@ -40,6 +40,9 @@ CLAIMED = {
  "C18": dict(cat="proof", tech=KV + ": representation invariant + per-operation contracts from arbitrary invariant states",
              text="Inv (len <= size, single generation) and per-operation contracts of the real generic pool instantiated with generation-tagged resources: an induction over all sequential histories for the stated capacities.",
              note="Capacity <= 2 (shapes enumerated); no threads in Kani: interleavings inside one operation and the wake-up clause are not decided.", ref="§4 C18"),
+ "C19": dict(cat="proof", tech=VX + " (the ancillary acceptance path)",
+             text="PARTIAL: the ancillary clause: AncillaryVerifier::verify accepts only a manifest found in the unpack directory whose every listed file hashes to the listed hash and which is signed under the configured key, hands on exactly the listed files; the archive is unpacked into a temporary directory and only a manifest validated there is moved to the target.",
+             note="The immutable-file clause (UnexpectedDownloadedFileVerifier), tar/zstd unpacking, HTTP, the file moves themselves, removal of the temporary directory on failure and file-system races are NOT decided.", ref="§0.2 C19"),
  "C20": dict(cat="proof", tech=KV + ", loop-free over all epochs + " + VX + " (signer-side eligibility gate; both epoch services: which offset keys which store access)",
              text="PARTIAL: the epoch-offset algebra shared by signer and aggregator (a key recorded at e is retrieved for signing at e + signing offset; next signers of e are current signers of e+1; retrieval fails exactly at epoch 0), both epoch services keyed by exactly those offsets (key material / signer set in force at e = saved / recorded under e - 1, next under e, registration settings under e + 1; aggregate keys from SignerBuilder on exactly those sets), and the signer's gate can_signer_sign_current_epoch (true only with stored key material for the epoch whose key is the one listed for this party).",
              note="At-most-once signing per beacon, restarts and acceptance by the aggregator at run level (async state machines over SQLite) are not decided.", ref="§4 C20"),
@@ -55,7 +58,6 @@ NA = {
  "C12": "Quantifies over directory layouts, file contents and cache histories; the code is walkdir/std::fs/tokio spawn_blocking plus an async cache provider - I/O that neither Kani (FFI) nor Verus can execute; the property is about the environment, not about one call.",
  "C13": "A convergence property over histories of roll-forward / roll-back / restart against SQLite; the mechanism is SQL executed by an external engine. Contracts on the Rust wrappers would only restate the SQL text.",
  "C15": "Crash points between persistence steps: a property of process death and restart, not expressible as pre/postcondition of any function that returns.",
- "C19": "Tar/zstd unpacking, HTTP download, file moves and failure injection on the file system; nothing here is within either verifier's input language, and the property is about directory contents after an I/O sequence.",
 }
 PENDING = {}  # filled below for properties planned but whose check is not committed yet
 NA["C02"] = "select_valid_signatures_for_k_indices works on BTreeMap/HashMap/HashSet keyed by references with value hashing, closures and iterator chains: outside Verus' subset, and CBMC does not terminate on hashbrown (two HashSet<u64> inserts alone exceeded 15 min in the C01 probes); a per-call contract also cannot express 'for all multisets and orderings' without executing the maps. Observed and not claimed: a repeated copy of a signature makes aggregation fail (DESIGN.md section 6)."
